@@ -44,7 +44,7 @@ def get_plans(ddl, queries, configs):
     batches so that one driver call stays well inside its time limit whatever the machine load."""
     cat = None
     plans = []
-    step = 120
+    step = 40
     for i0 in range(0, max(len(queries), 1), step):
         out, rc, err = rl('plans', {'setup': ddl, 'queries': queries[i0:i0 + step], 'configs': configs}, timeout=900)
         got_cat = False
